@@ -132,7 +132,7 @@ def catalogue(chk, deb, btcc, tap):
     # well-formed public keys (the generator point), so that the code behind the size checks is reached
     GK = "79be667ef9dcbbac55a06295ce870b07029bfcdb2dce28d959f2815b16f81798"
     GY = "483ada7726a3c4655da4fbfc0e1108a8fd17b448a68554199c47d08ffb10d4b8"
-    keyed = ["[0x" + "11" * 32 + " 0x02" + GK + " 0x3006020101020101]", "[0x" + "11" * 32 + " 0x04" + GK + GY + " 0x" + "33" * 64 + "]", "[0x02" + GK + " 0x03" + GK + "]",
+    keyed = ["[0x" + "11" * 32 + " 0x" + GK + " 0x0102]", "[0x" + "11" * 32 + " 0x" + GK + " 0x" + "33" * 65 + "]","[0x" + "11" * 32 + " 0x02" + GK + " 0x3006020101020101]", "[0x" + "11" * 32 + " 0x04" + GK + GY + " 0x" + "33" * 64 + "]", "[0x02" + GK + " 0x03" + GK + "]",
              "[0x" + "00" * 32 + " 0x02" + GK + "]", "[0x" + "ff" * 32 + " 0x02" + GK + "]", "0x02" + GK, "0x04" + GK + GY, "[0x" + "11" * 32 + " 0x" + GK + " 0x" + "33" * 64 + "]",
              "[0x02" + GK + " 0x02" + GK + "]"]
     for fn in ("verify_sig", "combine_pubkeys", "tweak_pubkey", "pubkey_to_xpubkey", "taproot_tweak_pubkey"):
@@ -194,6 +194,10 @@ def catalogue(chk, deb, btcc, tap):
     for sc in (["[OP_ADD OP_ADD OP_1]"], ["[OP_0 OP_VERIFY OP_IF OP_ENDIF OP_ENDIF OP_1]"], ["[OP_1 OP_IF OP_RETURN OP_ELSE OP_ELSE OP_ENDIF OP_FROMALTSTACK OP_2DROP OP_1]"],
                ["[OP_CHECKMULTISIG OP_CHECKSIG OP_CHECKSIGADD OP_1]"], ["[0x0102030405 OP_1ADD OP_PICK OP_ROLL OP_1]"]):
         repl("repl-past-errors", sc, ["step"] * 12 + ["rewind"] * 14 + ["step"] * 12)
+    # option values that are evaluated as expressions
+    for pv in ("int(0x010203040506):02", "0x01:int(0x010203040506)", "hex(:", "sha256(0x):sha256(", "[OP_1]:[", "add([1]):02", "0x" + "ab" * 3000 + ":02", ":", "::", ",", "a:b:c,d"):
+        cli("pretend-expr", "btcdeb", ["-P", pv, "[OP_1]"])
+        cli("pretend-expr", "btcdeb", ["--pretend-valid=" + pv], stdin_data=b"[OP_1]\n", stdin_tty=False)
     # transactions of degenerate shape
     for txh in ("01000000000000000000", "0100000000010000000000", "010000000001000000000000", "02000000000100000000000000", "0100000001" + "00" * 36 + "00ffffffff0000000000",
                 "01000000" + "00" * 200, "ffffffff" * 20):
